@@ -998,3 +998,111 @@ Proof. exact tie_c09x_ifchanged_instances. Qed.
 Print Assumptions C09x_run_set.
 Print Assumptions C09x_run_autoescape.
 Print Assumptions C09x_run_ifchanged_instances.
+
+
+(* ==================== part: the general tie of ifchanged (Props/C09y) ==================== *)
+
+(* Property C09 (translated, the ifchanged tag) - tagIfchangedNode.Execute IS the model's executor,
+   in both modes.
+
+   tools/go2v (tagfuncs.go) translates tagIfchangedNode.state and tagIfchangedNode.Execute
+   (tags_ifchanged.go) statement by statement, on every run, into terms of the Go fragment of
+   Lib/GoStmt.v (gen/TagFuncs.v: go_statefuncs); Spec/SpecTagFuncs2.v gives the terms their meaning
+   ([state_tag_execute]: the run of node.Execute(ctx, writer) in a world that holds what the writer was
+   handed so far, the model's execution state, the model's fuel and a heap for the bytes.Buffer and a
+   fresh state object); only what the methods CALL or TOUCH is taken from the model (expression
+   evaluation, NodeWrapper.Execute, EqualValueTo, the writer, ctx.nodeState = ms_nodes).  The order of
+   the statements, the early returns, the loop with its break and the index are those of the Go text.
+   [uread_exec site r] reads a run back as an outcome of the model's executor, [after o0 x] is the
+   model's outcome x after the writer already held o0, [d] bounds the call depth (3 is enough).
+
+   The theorems are named _partial because a hypothesis on the node's entry in ctx.nodeState remains
+   (Spec/SpecTagFuncs3.v says why each part is needed; no state reached by executing templates
+   violates them, since a node has its own key and its list of watched expressions never changes):
+     content mode  [ifch_body_keeps_mode]     when the body has run, the entry holds no remembered values
+                                              (the model's store drops them, the Go code keeps them)
+     watched mode  [ifch_watched_keeps_mode]  not more values remembered than expressions watched (else
+                                              the Go code panics on nowValues[idx], the model does not);
+                                              when the expressions have run the entry holds no content (the
+                                              model's store drops it, the Go code keeps it); comparing
+                                              the remembered with the new values is covered by the model
+                                              (the Go code stops at the first unequal pair, the model's
+                                              fold sees a later struct comparison and says Unmod)
+   Nothing is assumed about fuel, the body, the else block, the frames, the writer, or entries of
+   other nodes; a missing entry and a zero state object are the same in the interpretation.
+
+   What each theorem contributes:
+     C09y_ifchanged_content_is_model_partial   {% ifchanged %}body{% endifchanged %}: for every body,
+                                 state, fuel: the last content is read BEFORE the body is rendered into
+                                 the buffer; an error of the body is returned and nothing is written;
+                                 equal content writes nothing and stores nothing; changed content is
+                                 written and stored
+     C09y_ifchanged_watched_is_model_partial   {% ifchanged e1 .. en %}: for every non-empty list of
+                                 expressions, both blocks: the last values are read BEFORE the
+                                 expressions are evaluated (in order, first error returned), compared
+                                 pairwise, the new values stored, then the then / else block runs
+     C09y_ifchanged_is_model_partial           the two in one statement
+   Examples: the hypotheses hold before the first execution of the tag and in the states its
+   execution reaches; the second execution prints nothing (content) / takes the else block (watched);
+   on two states no execution reaches, where the hypotheses fail, the Go code and the model differ. *)
+From PV Require Import Model.Exec Model.Api Lib.GoStmt Spec.SpecTagFuncs Spec.SpecTagFuncs2 Spec.SpecTagFuncs3 gen.TagFuncs.
+From PV Require Import Tie.C09s Tie.C09x Tie.C09y.
+From Coq Require Import String.
+Open Scope string_scope.
+
+Theorem C09y_ifchanged_content_is_model_partial : forall site d, (3 <= d)%nat -> forall se globals id thenb elseb o0 st fuel,
+  ifch_body_keeps_mode se globals fuel st id thenb ->
+  uread_exec site (state_tag_execute se globals go_statefuncs d (UVIfchangedNode id [] thenb elseb) o0 st fuel)
+  = Some (after o0 (exec_node se globals fuel st (NIfchanged id [] thenb elseb))).
+Proof. exact tie_tagIfchangedNode_Execute_content. Qed.
+Print Assumptions C09y_ifchanged_content_is_model_partial.
+
+Theorem C09y_ifchanged_watched_is_model_partial : forall site d, (3 <= d)%nat -> forall se globals id w ws thenb elseb o0 st fuel,
+  ifch_watched_keeps_mode se globals fuel st id (w :: ws) ->
+  uread_exec site (state_tag_execute se globals go_statefuncs d (UVIfchangedNode id (w :: ws) thenb elseb) o0 st fuel)
+  = Some (after o0 (exec_node se globals fuel st (NIfchanged id (w :: ws) thenb elseb))).
+Proof. exact tie_tagIfchangedNode_Execute_watched. Qed.
+Print Assumptions C09y_ifchanged_watched_is_model_partial.
+
+Theorem C09y_ifchanged_is_model_partial : forall site d, (3 <= d)%nat -> forall se globals id watched thenb elseb o0 st fuel,
+  ifch_tie_hyps se globals fuel st id watched thenb ->
+  uread_exec site (state_tag_execute se globals go_statefuncs d (UVIfchangedNode id watched thenb elseb) o0 st fuel)
+  = Some (after o0 (exec_node se globals fuel st (NIfchanged id watched thenb elseb))).
+Proof. exact tie_tagIfchangedNode_Execute. Qed.
+Print Assumptions C09y_ifchanged_is_model_partial.
+
+(* ---------- non-vacuity ---------- *)
+(* {% ifchanged %}A{% endifchanged %} is node 7, {% ifchanged 1 2 %}A{% else %}B{% endifchanged %} node 8;
+   c09y_st1 / c09y_st2 are the states after executing them once from c09s_state *)
+Example C09y_hypotheses_hold_in_reached_states :
+  ifch_tie_hyps c09y_se [] 20 c09s_state 7 [] c09y_body /\
+  ifch_tie_hyps c09y_se [] 20 c09y_st1 7 [] c09y_body /\
+  ifch_tie_hyps c09y_se [] 20 c09s_state 8 c09y_watched c09y_body /\
+  ifch_tie_hyps c09y_se [] 20 c09y_st2 8 c09y_watched c09y_body /\
+  ifch_content c09y_st1 c09y_exec 7 = Some [65] /\
+  List.length (ifch_vals c09y_st2 c09y_exec 8) = 2%nat.
+Proof. exact tie_c09y_hyps_reached. Qed.
+
+Example C09y_second_execution :
+  option_map fst (c09y_run (UVIfchangedNode 7 [] c09y_body None) c09y_st1 [60]) = Some [60] /\
+  option_map fst (c09y_run (UVIfchangedNode 8 c09y_watched c09y_body (Some c09y_else)) c09y_st2 [60]) = Some [60; 66] /\
+  c09y_run (UVIfchangedNode 8 c09y_watched c09y_body (Some c09y_else)) c09y_st2 [60] =
+    Some (after [60] (exec_node c09y_se [] 20 c09y_st2 (NIfchanged 8 c09y_watched c09y_body (Some c09y_else)))).
+Proof. exact tie_c09y_second_run. Qed.
+
+(* where the hypotheses fail, the Go code and the model do differ *)
+Example C09y_long_entry_differs :
+  ugo_panics (state_tag_execute c09y_se [] go_statefuncs 3 (UVIfchangedNode 8 [EInt 1] c09y_body (Some c09y_else)) [] c09y_st_long 20) = true /\
+  fst (exec_node c09y_se [] 20 c09y_st_long (NIfchanged 8 [EInt 1] c09y_body (Some c09y_else))) = [66].
+Proof. exact tie_c09y_long_entry_differs. Qed.
+
+Example C09y_mixed_entry_differs :
+  option_map (fun x => match snd x with Ok st' => ifch_vals st' c09y_exec 7 | _ => [] end)
+             (c09y_run (UVIfchangedNode 7 [] c09y_body None) c09y_st_mixed []) = Some [as_value (VInt 1)] /\
+  match snd (exec_node c09y_se [] 20 c09y_st_mixed (NIfchanged 7 [] c09y_body None)) with
+  | Ok st' => ifch_vals st' c09y_exec 7 | _ => [as_value (VInt 1)] end = [].
+Proof. exact tie_c09y_mixed_entry_differs. Qed.
+Print Assumptions C09y_hypotheses_hold_in_reached_states.
+Print Assumptions C09y_second_execution.
+Print Assumptions C09y_long_entry_differs.
+Print Assumptions C09y_mixed_entry_differs.
